@@ -4,9 +4,12 @@ Every case is a package P the implementation produced with to_proto, and P' = to
 (harness/impl/c11.py).  Coq (Corr/C11.v) decides P' = P (the specification, field by field, together with protobuf message
 equality and deterministic-serialisation equality measured by the driver) and compares P' with the model
 Model/C11RoundTrip.v:rt_pkg P (import, slice resolution, export).  Streams: corpus, examples/generators/PDK, the design
-generator, the primitive / external-module parameter space, enumeration tables and names against the live functions.
+generator, the primitive / external-module parameter space, twins (several instances of one external module / primitive
+whose parameter values are equal under Python's == but different in the package: the importer must not let an earlier
+instance decide a later one; coverage classes measured by the driver, fail closed), enumeration tables and names against
+the live functions, pyeq (Model/C11Share.v:py_eq against the live ==).
 """
-import json, os, subprocess, itertools
+import json, os, subprocess, itertools, time
 from decimal import Decimal
 from . import core, design as D
 from .core import cz, clist, cbool
@@ -216,6 +219,18 @@ def corpus_jobs():
     jobs.append(dict(source="design", design=d))
     jobs.append(dict(source="design", design=d, tops=[0, 2], domain="multi"))
     jobs.append(dict(source="design", design=d, tops=[2, 0, 1]))
+    # strengthening round: minimised form of the seeded Call-sharing change (an importer cache keyed by Python-equal parameters):
+    # one cell in a leaf; in the top the same cell with the same numbers written differently, and once exactly as in the leaf
+    cell = dict(name="cell", domain="c11_pdk", spicetype=None, ports=[["a", 1, "INOUT"], ["b", 1, "INOUT"]], paramtype="dict")
+    mk = lambda nm, m, w: dict(name=nm, kind="ext", ext=0, params=[["m", m], ["w", w], ["mode", ["str", "fast"]]])
+    jobs.append(dict(source="insts", name="Top", domain="c11_demo_c", exts=[cell], mods=[
+        dict(name="Leaf", insts=[mk("x0", ["int", 2], P("1500", "MILLI"))], uses=[]),
+        dict(name="Top", insts=[mk("x1", ["float", (2.0).hex()], P("1500", "MILLI")), mk("x2", ["int", 2], P("1.5", "UNIT")),
+                                mk("x3", ["int", 2], P("1500", "MILLI"))], uses=[0])]))
+    jobs.append(dict(source="insts", name="T", exts=[], mods=[
+        dict(name="T", insts=[dict(name="r0", kind="prim", prim="IdealResistor", params=[["r", P("1.5", "UNIT")]]),
+                              dict(name="r1", kind="prim", prim="IdealResistor", params=[["r", P("1500", "MILLI")]]),
+                              dict(name="r2", kind="prim", prim="IdealResistor", params=[["r", P("1.50", "UNIT")]])], uses=[])]))
     return jobs
 
 
@@ -354,6 +369,167 @@ def design_job(r, k):
     return job
 
 
+# ------------------------------------------------------------------------------------------ twins (strengthening round)
+# Packages in which SEVERAL instances of one external module / one primitive carry parameter values that are equal under
+# Python's `==` (and mostly hash alike) once imported, but are different values of the package: the integer 2, the double
+# 2.0, 2 UNIT, 2000 MILLI, 0.002 KILO, the literal "2"; 1.5 / 1.50 / 15E-1 UNIT; 0, 0.0, -0.0 ...   Each instance must keep
+# its own spelling whatever was imported before it (same module, a module imported earlier, a sibling module), in either
+# order.  A value is given by its exact decimal; a spelling is a job-level value (harness/impl/c11.py:mk_value).
+TWIN_PREFIXES = [("UNIT", 0), ("MILLI", -3), ("KILO", 3), ("MICRO", -6), ("DECI", -1), ("MEGA", 6)]
+
+
+def dec_plain(d):
+    return format(d, "f")
+
+
+def spellings(d, scalar_only=False, prefixes=TWIN_PREFIXES):
+    """the spellings of the exact decimal value d: [(label, job value)]"""
+    d = Decimal(d)
+    out = []
+    integral = d == d.to_integral_value()
+    if not scalar_only:
+        if integral and -I63 <= int(d) < I63:
+            out.append(("int", ["int", int(d)]))
+        f = float(d)
+        if Decimal(f) == d:
+            out.append(("dbl", ["float", f.hex()]))
+            if f == 0.0:
+                out.append(("dbl-0", ["float", (-0.0).hex()]))
+        out.append(("lit", ["str", dec_plain(d)]))
+    for name, e in prefixes:
+        num = d.scaleb(-e)
+        out.append(("pre:" + name, ["pre", dec_plain(num), name]))
+    if not integral:
+        out.append(("pre:UNIT:zeros", ["pre", dec_plain(d) + "0", "UNIT"]))
+        sign, digits, exp = d.as_tuple()
+        out.append(("pre:UNIT:exp", ["pre", ("-" if sign else "") + "".join(map(str, digits)) + "E" + str(exp), "UNIT"]))
+    return out
+
+
+TWIN_EXT = dict(name="cell", domain="pdk", spicetype=None, ports=[["a", 1, "INOUT"], ["b", 2, "INPUT"]], paramtype="dict")
+TWIN_PRIMS = [("IdealResistor", "r"), ("Mos", "w"), ("PulseVoltageSource", "delay"), ("PhysicalCapacitor", "c"), ("DcVoltageSource", "dc")]
+
+
+def prim_params(prim, field_values):
+    """parameters of a primitive instance: the given Scalar fields, every other required / chosen field fixed"""
+    out = []
+    for f, kind in PRIMS[prim]:
+        if f in field_values:
+            out.append([f, field_values[f]])
+        elif kind == "S" and f != "gain":
+            out.append([f, P("3", "KILO")])
+        elif kind == "t" and f == "model":
+            out.append([f, ["str", "nch"]])
+    return out
+
+
+def twin_job(insts_by_mod, scope, exts, name="W", **kw):
+    """scope: same (one module) | chain (the first instance list in a leaf, the second in the top instantiating the leaf) |
+    siblings (two leaves, then a top instantiating both) | tops (two modules exported together)"""
+    a, b = insts_by_mod
+    if scope == "same":
+        mods = [dict(name=name, insts=a + b, uses=[])]
+    elif scope == "chain":
+        mods = [dict(name=name + "Leaf", insts=a, uses=[]), dict(name=name, insts=b, uses=[0])]
+    elif scope == "siblings":
+        mods = [dict(name=name + "L", insts=a, uses=[]), dict(name=name + "R", insts=b, uses=[]), dict(name=name, insts=[], uses=[0, 1])]
+    else:
+        mods = [dict(name=name + "A", insts=a, uses=[]), dict(name=name + "B", insts=b, uses=[])]
+        kw["tops"] = [0, 1]
+    return dict(source="insts", name=name, exts=exts, mods=mods, **kw)
+
+
+def twins_small_jobs():
+    """every ordered pair of spellings of 2, of 1.5 and of 0, on an external module with dict parameters (every scope), on one
+    with a parameter class and on primitives (scopes in rotation)"""
+    jobs, k = [], 0
+    scopes = ["same", "chain", "siblings", "tops"]
+    for val in ["2", "1.5", "0"]:
+        sp = spellings(val, prefixes=TWIN_PREFIXES[:3])
+        for (la, va), (lb, vb) in itertools.permutations(sp, 2):
+            mk = lambda v, nm: [dict(name=nm, kind="ext", ext=0, params=[["m", v], ["mode", ["str", "fast"]]])]
+            for scope in scopes[:2]:
+                jobs.append(twin_job((mk(va, "x0"), mk(vb, "x1")), scope, [dict(TWIN_EXT)], twin=[la, lb]))
+            jobs.append(twin_job((mk(va, "x0"), mk(vb, "x1")), scopes[2 + k % 2], [dict(TWIN_EXT)], twin=[la, lb]))
+            cls = dict(TWIN_EXT, paramtype="class", fields=["m", "n"], name="ccell")
+            mkc = lambda v, nm: [dict(name=nm, kind="ext", ext=0, params=[["m", v]])]
+            jobs.append(twin_job((mkc(va, "x0"), mkc(vb, "x1")), scopes[k % 4], [cls], twin=[la, lb]))
+            k += 1
+    for val in ["2", "1.5", "0"]:
+        sp = spellings(val, scalar_only=True, prefixes=TWIN_PREFIXES[:3])
+        for (la, va), (lb, vb) in itertools.permutations(sp, 2):
+            prim, f = TWIN_PRIMS[k % len(TWIN_PRIMS)]
+            mk = lambda v, nm: [dict(name=nm, kind="prim", prim=prim, params=prim_params(prim, {f: v}))]
+            for scope in (scopes[k % 2], scopes[2 + k % 2]):
+                jobs.append(twin_job((mk(va, "p0"), mk(vb, "p1")), scope, [], twin=[la, lb]))
+            k += 1
+    return jobs
+
+
+TWIN_VALUES = ["0", "1", "2", "7", "-3", "1000", "9007199254740992", "1000000000000000000", "0.5", "1.5", "2.25", "-0.75", "0.1",
+               "0.001", "1234.5", "1E+3", "0.000001"]
+
+
+def twins_random_job(r, k):
+    """1..2 external modules and 0..2 primitives, 2..5 instances of each spread over 1..3 modules; the instances of one target
+    take the same parameter names in the same order and each value in a random spelling of the SAME number (85 %), or - as
+    controls - another number, permuted names, a dropped name."""
+    exts, targets = [], []
+    for e in range(r.randint(1, 2)):
+        cls = r.random() < 0.25
+        names = [f"k{j}" for j in range(r.randint(1, 3))]
+        exts.append(dict(name=f"E{e}", domain=r.choice(["pdk", "", "a.b"]), spicetype=r.choice([None, "MOS", "SUBCKT"]),
+                         ports=[[f"p{j}", r.choice([1, 2]), r.choice(DIRS)] for j in range(r.randint(1, 3))],
+                         paramtype="class" if cls else "dict", fields=names))
+        targets.append(("ext", e, names, cls))
+    for _ in range(r.randint(0, 2)):
+        prim = r.choice(list(PRIMS))
+        names = [f for f, kind in PRIMS[prim] if kind in ("s", "S")]
+        names = [f for f in names if r.random() < 0.7] or names[:1]
+        targets.append(("prim", prim, names, True))
+    insts, n = [], 0
+    for kind, what, names, fixed_order in targets:
+        base = {nm: r.choice(TWIN_VALUES) for nm in names}
+        for _ in range(r.randint(2, 5)):
+            use, vals = list(names), dict(base)
+            u = r.random()
+            if u > 0.85:
+                c = r.random()
+                if c < 0.4:
+                    vals[r.choice(names)] = r.choice(TWIN_VALUES)
+                elif c < 0.7 and not fixed_order:
+                    r.shuffle(use)
+                elif len(use) > 1 and kind == "ext":
+                    use.remove(r.choice(use))
+            ps = {}
+            for nm in use:
+                sp = spellings(vals[nm], scalar_only=(kind == "prim"))
+                if kind == "ext" and r.random() < 0.05:
+                    sp = sp + [("lit", ["lit", vals[nm]]), ("none", ["none"]), ("bool", ["bool", vals[nm] == "1"])]
+                ps[nm] = r.choice(sp)[1]
+            if kind == "ext":
+                insts.append(dict(name=f"x{n}", kind="ext", ext=what, params=[[nm, ps[nm]] for nm in use]))
+            else:
+                insts.append(dict(name=f"x{n}", kind="prim", prim=what, params=prim_params(what, ps)))
+            n += 1
+    r.shuffle(insts)
+    cut = r.randint(0, len(insts))
+    scope = r.choice(["same", "chain", "chain", "siblings", "tops"])
+    return twin_job((insts[:cut], insts[cut:]), scope, exts, name=f"W{k % 5}", domain=r.choice([None, "pkg"]),
+                    bare=r.random() < 0.2)
+
+
+TWIN_KINDS = ["int", "dbl", "pre_i", "pre_s"]
+TWIN_TARGETS = ([f"ext:{sc}:{a}>{b}" for sc in ("same_mod", "cross_mod") for a in TWIN_KINDS for b in TWIN_KINDS if (a, b) != ("int", "int")]
+                + [f"ext:{sc}:{a}>{b}" for sc in ("same_mod", "cross_mod") for a, b in (("lit", "pre_i"), ("pre_i", "lit"), ("lit", "pre_s"), ("pre_s", "lit"))]
+                + [f"prim:{sc}:{a}>{b}" for sc in ("same_mod", "cross_mod") for a in ("pre_i", "pre_s") for b in ("pre_i", "pre_s")])
+
+
+def twin_classes(r):
+    """the coverage classes a case meets: <ext|prim>:<same_mod|cross_mod>:<kind of the earlier instance's value>><kind of the later one's>"""
+    return {f"{t}:{sc}:{a}>{b}" for sc, t, heq, kinds in r.get("twins", []) for a, b in kinds}
+
+
 def ensure_corr_vo():
     """Corr/C11.vo must exist even when a later file of the project fails to build (e.g. Props/C11.v on a tree whose
     importer does not have the repaired shape)."""
@@ -376,10 +552,12 @@ def run(run, tier, seed, replay=None):
     streams["designs"] = [design_job(core.rng(seed, "C11", "designs", k), k) for k in range(300 if quick else 6000)]
     streams["primitives"] = [prim_job(core.rng(seed, "C11", "prims", k), k) for k in range(250 if quick else 5000)]
     streams["extmodules"] = [extmod_job(core.rng(seed, "C11", "exts", k), k) for k in range(150 if quick else 3000)]
+    streams["twins"] = twins_small_jobs() + [twins_random_job(core.rng(seed, "C11", "twins", k), k) for k in range(150 if quick else 3000)]
     if replay is not None:
         streams = {"replay": [replay["job"]]}
 
     for sname, jobs in streams.items():
+        t0 = time.time()
         solo = [j for j in jobs if j["source"] == "example"]
         rest = [j for j in jobs if j["source"] != "example"]
         outs = [core.run_worker("c11", dict(jobs=[j]), timeout=900)["results"][0] for j in solo]
@@ -398,9 +576,16 @@ def run(run, tier, seed, replay=None):
                 owner.append(ji)
         bad = core.coq_eval_cases("C11", sname, IMPORTS, "c11_case", [c_case(r) for r in cases], "run_cases chk_c11", chunk=40)
         report(run, sname, jobs, cases, owner, bad, src_err)
+        run.coverage["streams"][sname]["wall_s"] = round(time.time() - t0, 1)
 
     if replay is None:
+        t0 = time.time()
         tables(run, seed, quick)
+        t1 = time.time()
+        pyeq(run, seed, quick)
+        run.coverage["streams"]["names"]["wall_s"] = round(t1 - t0, 1)       # enums + names
+        if "pyeq" in run.coverage["streams"]:
+            run.coverage["streams"]["pyeq"]["wall_s"] = round(time.time() - t1, 1)
     run.coverage["traces_validated_against_impl"] = run.coverage["evaluations"]
 
 
@@ -411,6 +596,24 @@ def report(run, sname, jobs, cases, owner, bad, src_err):
                  with_ext_modules=sum('"exts": [{' in s for s in distinct), with_prefixed=sum('"pre"' in s for s in distinct),
                  with_string_numbers=sum('["str", "' in s and '"pre"' in s for s in distinct),
                  with_literals=sum('"literals": ["' in s for s in distinct), multi_top=sum(len(r["tops"]) > 1 for r in cases))
+    met = {}
+    for r in cases:
+        for c in twin_classes(r):
+            met[c] = met.get(c, 0) + 1
+    feats.update(twin_pairs=sum(len(r.get("twins", [])) for r in cases),
+                 twin_pairs_hash_equal=sum(1 for r in cases for t in r.get("twins", []) if t[2]),
+                 packages_with_twins=sum(1 for r in cases if r.get("twins")),
+                 packages_with_twin_values_in_one_instance=sum(1 for r in cases if r.get("vtwins")),
+                 twin_classes_met=len(met))
+    if sname == "twins":
+        feats["twin_targets"] = {t: met.get(t, 0) for t in TWIN_TARGETS}
+        feats["twin_rule"] = ("twin pair = two instances of one external module / primitive, in import order, whose imported parameter "
+                              "dicts are equal as tuple(params.items()) under the live Python == while their parameter lists differ in P "
+                              "(measured by the driver with the live import_parameters); class = target:scope:kind of the earlier value>kind of the later value")
+        for t in TWIN_TARGETS:
+            if not met.get(t):
+                run.violation(f"C11:coverage:{t}", f"generator coverage target missed: no package with a twin pair of class {t}",
+                              dict(kind="coverage", target=t), found_input=False)
     run.stream(sname, len(cases), len(nontrivial), source_rejected=src_err, jobs=len(jobs), **feats,
                rule="non-trivial = the package has a module with at least one instance; distinct by package content; "
                     "source_rejected = jobs whose design the implementation refused to build/export (no package, not a case)")
@@ -466,3 +669,69 @@ def tables(run, seed, quick):
     for i, code in bad[:1]:
         run.violation(f"C11:name:{rows[i][0]}", f"split_dot/join_dot disagree with CPython on {rows[i][0]!r}", dict(kind="spec-differs", row=rows[i]),
                       found_input=False)
+
+
+
+# ------------------------------------------------------------------------------------------ pyeq: Model/C11Share.v:py_eq against the live ==
+def pvalue_of(v):
+    """the PACKAGE form (pval_json) of a job-level spelling as the exporter writes it for a dict-typed parameter"""
+    t = v[0]
+    if t == "int":
+        return ["int", v[1]]
+    if t == "float":
+        return ["dbl", v[1]]
+    if t in ("str", "lit"):
+        return ["lit", v[1]]
+    if t == "pre":
+        d = Decimal(v[1])
+        if d == d.to_integral_value() and -I63 <= int(d) < I63:
+            return ["pre", v[2], ["int", int(d)]]
+        return ["pre", v[2], ["str", str(d)]]
+    raise ValueError(v)
+
+
+def pyeq_pairs(seed, quick):
+    pool = []
+    for val in ["0", "1", "2", "-3", "1000", "1.5", "0.1", "0.001", "9007199254740992", "9007199254740993", "1E+22",
+                "1.0000000000000000000001", "1.00000000000000000001", "0.00000000000000000000049", "123456789.123456789"]:
+        for _, v in spellings(val):
+            pv = pvalue_of(v)
+            if pv not in pool:
+                pool.append(pv)
+    pool += [["dbl", float("inf").hex()], ["dbl", 5e-324.hex()], ["dbl", 1e22.hex()], ["dbl", (2.0 ** 53).hex()], ["int", I63 - 1], ["int", -I63],
+             ["lit", "x"], ["lit", ""], ["str", "2"], ["pre", "YOTTA", ["int", 1]], ["pre", "YOCTO", ["int", 1]],
+             ["pre", "YOCTO", ["str", "0.5"]], ["pre", "UNIT", ["str", "1E+30"]]]
+    small = [pv for k, pv in enumerate(pool) if k % 4 == 0] if quick else pool
+    pairs = [[a, b] for a in small for b in small]
+    r = core.rng(seed, "C11", "pyeq", 0)
+    for _ in range(300 if quick else 3000):
+        a = r.choice(pool)
+        b = r.choice(pool) if r.random() < 0.5 else pvalue_of(r.choice(spellings(r.choice(TWIN_VALUES)))[1])
+        pairs.append([a, b])
+    return pairs
+
+
+def pyeq(run, seed, quick):
+    pairs = pyeq_pairs(seed, quick)
+    out = core.run_worker("c11", dict(jobs=[dict(source="pyeq", pairs=pairs)]))["results"][0]
+    if out["err"] is not None:
+        run.violation("C11:pyeq:live", f"live import_parameter_value / == failed: {out['err']}", dict(kind="spec-differs", err=out["err"]),
+                      found_input=False)
+        return
+    rows = out["rows"]
+    cs_ = [f"({c_val(a)}, {c_val(b)}, {cz(eq)})" for a, b, eq, heq in rows]
+    res = core.coq_eval_cases("C11", "pyeq", IMPORTS, "pyeq_case", cs_, "run_cases chk_pyeq", chunk=150)
+    bad = [(i, code) for i, code in res if code != 9]
+    opened = [i for i, code in res if code == 9]
+    decided = len(rows) - len(opened)
+    equal_diff = sum(1 for a, b, eq, heq in rows if eq == 1 and a != b)
+    run.stream("pyeq", len(rows), equal_diff, decided_by_model=decided, left_open_by_model=len(opened),
+               python_equal_but_different_in_package=equal_diff, of_which_hash_equal=sum(1 for a, b, eq, heq in rows if eq == 1 and a != b and heq),
+               python_raises=sum(1 for a, b, eq, heq in rows if eq == 2),
+               rule="non-trivial = Python says the two imported values are equal although the package values differ; oracle: the live "
+                    "import_parameter_value and ==; the model leaves Prefixed against float / str open (str(float), Decimal(text))")
+    if decided * 2 < len(rows):
+        run.violation("C11:coverage:pyeq-decided", f"py_eq decided only {decided} of {len(rows)} pairs", dict(kind="coverage"), found_input=False)
+    for i, code in bad[:1]:
+        run.violation(f"C11:pyeq:{json.dumps(rows[i][:2])}", f"Model/C11Share.v:py_eq disagrees with the live Python == on {rows[i]}",
+                      dict(kind="spec-differs", row=rows[i]), found_input=False)
